@@ -286,10 +286,17 @@ func C11(tier string) int {
 	// control octets in ENVID / AUTH / rfc822 ORCPT; code points beyond Unicode, surrogates, NUL, over-long HEXPOINTs in
 	// utf-8 ORCPT) - one parameter per line
 	for _, pth := range c11Paths[1:4] {
-		for _, x := range []string{"ENVID=x+FFy", "ENVID=+80", "ENVID=x+07y", "ENVID=+00", "ENVID=x+7Fy", "AUTH=x+FFy@c.example", "AUTH=+80@c.example", "AUTH=x+00y@c.example", "AUTH=x+0Ay@c.example"} {
+		// the boundary characters of the printable range, which must be accepted as they are
+		for _, x := range []string{"ENVID=~x!", "ENVID=!#$%&'()*,-./:;<>?@[]^_`{|}~", "ENVID=x+7Ey+21z", "AUTH=~x!@c.example"} {
 			add("MAIL", pth+" "+x)
 		}
-		for _, x := range []string{"ORCPT=rfc822;x+FFy@d.example", "ORCPT=rfc822;x+07y@d.example", "ORCPT=rfc822;+80@d.example", "ORCPT=rfc822;x+00@d.example",
+		for _, x := range []string{"ORCPT=rfc822;~x!@d.example", "ORCPT=rfc822;x+7Ey+21@d.example", "ORCPT=utf-8;~x!@c.example"} {
+			add("RCPT", pth+" "+x)
+		}
+		for _, x := range []string{"ENVID=", "AUTH=", "RET=", "BODY=", "SIZE=", "SIZE=-1", "SIZE=1x", "ENVID=x+FFy", "ENVID=+80", "ENVID=x+07y", "ENVID=+00", "ENVID=x+7Fy", "AUTH=x+FFy@c.example", "AUTH=+80@c.example", "AUTH=x+00y@c.example", "AUTH=x+0Ay@c.example"} {
+			add("MAIL", pth+" "+x)
+		}
+		for _, x := range []string{"ORCPT=rfc822;", "ORCPT=utf-8;", "ORCPT=;a@d.example", "ORCPT=rfc822", "NOTIFY=", "NOTIFY=,", "NOTIFY=SUCCESS,", "RRVS=", "ORCPT=rfc822;x+FFy@d.example", "ORCPT=rfc822;x+07y@d.example", "ORCPT=rfc822;+80@d.example", "ORCPT=rfc822;x+00@d.example",
 			`ORCPT=utf-8;a\x{FFFFFFF}y@c.example`, `ORCPT=utf-8;a\x{110000}@c.example`, `ORCPT=utf-8;a\x{D800}@c.example`, `ORCPT=utf-8;a\x{DFFF}@c.example`, `ORCPT=utf-8;a\x{0}@c.example`, `ORCPT=utf-8;a\x{00}@c.example`,
 			`ORCPT=utf-8;a\x{FFFFFFFFFFFFFFFFF}@c.example`, `ORCPT=utf-8;a\x{10FFFF}@c.example`, `ORCPT=utf-8;a\x{E9}@c.example`, `ORCPT=utf-8;a\x{7F}@c.example`, `ORCPT=utf-8;a\x{}@c.example`, `ORCPT=utf-8;a\x{G1}@c.example`} {
 			add("RCPT", pth+" "+x)
